@@ -24,16 +24,45 @@ FW = {
 STR_CLASSES = {c.__name__: c for c in (IntString, FloatString, BooleanString, IsoDateString, IsoTimeString, IsoDatetimeString)}
 
 
+def _shipped():
+    """the shipped registries as the library builds them: the default registry (types + replacement edges, snapshot taken at
+    import) and what register_datetime_classes() adds to a registry"""
+    global _SHIPPED
+    try:
+        return _SHIPPED
+    except NameError:
+        pass
+    from json_to_models.dynamic_typing import register_datetime_classes, registry as default_registry
+    base_types = list(default_registry.types)[:3] if len(default_registry.types) >= 3 else list(default_registry.types)
+    base_edges = {(a, b) for a, b in default_registry.replaces if a in base_types and b in base_types}
+    scratch = StringSerializableRegistry()
+    register_datetime_classes(scratch)
+    _SHIPPED = (base_types, base_edges, list(scratch.types), set(scratch.replaces), register_datetime_classes)
+    return _SHIPPED
+
+
 def make_str_registry(names):
-    """Explicit pseudo-type registry with the given classes in the given order (IntString is replaced by
-    FloatString exactly as in the shipped default registry when both are present)."""
+    """Explicit pseudo-type registry with the given classes in the given order.  The full shipped configuration (the three
+    default types followed by the datetime types) is built exactly the way a user builds it - a copy of the default types and
+    edges plus register_datetime_classes(registry); other orders / subsets are built with add() and receive the replacement
+    edges the shipped configuration declares between the classes that are present."""
+    base_types, base_edges, dt_types, dt_edges, register_dt = _shipped()
+    names = list(names)
     r = StringSerializableRegistry()
-    for n in names:
-        cls = STR_CLASSES[n]
-        if cls is FloatString:
-            r.add(replace_types=(IntString,), cls=cls)
-        else:
-            r.add(cls=cls)
+    shipped_default = [c.__name__ for c in base_types]
+    shipped_dt = [c.__name__ for c in dt_types]
+    if names[:len(shipped_default)] == shipped_default and names[len(shipped_default):] in ([], shipped_dt):
+        r.types = list(base_types)
+        r.replaces = set(base_edges)
+        if names[len(shipped_default):]:
+            register_dt(r)
+        return r
+    present = [STR_CLASSES[n] for n in names]
+    for cls in present:
+        r.add(cls=cls)
+    for a, b in set(base_edges) | set(dt_edges):
+        if a in present and b in present:
+            r.replaces.add((a, b))
     return r
 
 
